@@ -10,6 +10,8 @@
 import GojaModel.C10.LemmasQ
 import GojaModel.C10.LemmasTr
 import GojaModel.C10.LemmasR
+import GojaModel.C10.LemmasA
+import GojaModel.C10.LemmasC
 import GojaModel.C10.Interp
 
 namespace GojaModel.C10
@@ -99,13 +101,41 @@ theorem interrupt_drops_queue (k : K) :
     (leaveAbrupt k).cur = [] ∧ (leaveAbrupt k).queue = [] ∧ (leaveAbrupt k).ran = k.ran ∧
     (leaveAbrupt k).enq = k.ran := ⟨rfl, rfl, rfl, rfl⟩
 
-/-- After an interrupt, whatever happens next, only jobs enqueued later are ever started:
-the started log stays a prefix of (started before the interrupt ++ enqueued after it). -/
+/-- After an interrupt, whatever happens next, only jobs enqueued later are ever started: the jobs started before
+the interrupt stay a prefix of the started log, and every job started afterwards carries a serial ≥ the serial
+counter at the moment of the interrupt — whereas every discarded job has a serial below it. -/
 theorem after_interrupt_only_new_jobs {k : K} (h : Reach k) (ops : List KOp) :
     let k' := applyOps ops (leaveAbrupt k)
-    k'.ran <+: k'.enq ∧ k'.ran ++ k'.cur ++ k'.queue = k'.enq :=
-  have hr : Reach (applyOps ops (leaveAbrupt k)) := reach_applyOps (Reach.step .leaveAbrupt h) ops
-  ⟨ran_prefix hr, ran_is_prefix_of_enqueued hr⟩
+    (∃ x, k'.ran = k.ran ++ x ∧ ∀ j ∈ x, k.nextSid ≤ j.sid) ∧
+    (∀ j ∈ k.cur ++ k.queue, j.sid < k.nextSid) := by
+  have hdrop : ∀ j ∈ k.cur ++ k.queue, j.sid < k.nextSid := by
+    intro j hj
+    have hq := qinv_reach h
+    apply hq.sids.2
+    rw [← hq.fifo, List.append_assoc]
+    exact List.mem_map_of_mem (List.mem_append_right _ hj)
+  refine ⟨?_, hdrop⟩
+  have key : ∀ (ops : List KOp) (k1 : K), Reach k1 → After k.ran k.nextSid k1 →
+      After k.ran k.nextSid (applyOps ops k1) ∧ Reach (applyOps ops k1) := by
+    intro ops
+    induction ops with
+    | nil => intro k1 hr ha; exact ⟨ha, hr⟩
+    | cons o os ih =>
+      intro k1 hr ha
+      exact ih _ (Reach.step o hr) (after_step (qinv_reach hr) ha (shape_applyOp k1 o))
+  have h0 : After k.ran k.nextSid (leaveAbrupt k) :=
+    ⟨⟨[], by simp [leaveAbrupt], by simp⟩, Nat.le_refl _, ⟨[], by simp [leaveAbrupt]⟩⟩
+  obtain ⟨ha, hr⟩ := key ops _ (Reach.step .leaveAbrupt h) h0
+  obtain ⟨l, hl, hlb⟩ := ha.later
+  obtain ⟨x, hx⟩ := ha.pre
+  refine ⟨x, hx, ?_⟩
+  have hf := (qinv_reach hr).fifo
+  rw [hx, hl, List.append_assoc, List.append_assoc] at hf
+  have hl2 := List.append_cancel_left hf
+  intro j hj
+  apply hlb
+  rw [← hl2]
+  exact List.mem_append_left _ hj
 
 /-! ## Settling -/
 
@@ -231,13 +261,69 @@ theorem attach_to_unhandled_rejection_reports_handle {k : K} (h : Reach k) (p : 
     simp at x
   · exact x
 
-/-! ## Reactions (DESIGN's `reaction_enqueued_iff_settled_exactly_once`, proved in three pieces) -/
+/-! ## Reactions -/
+
+theorem countP_eq_one_of_sorted : ∀ (l : List Nat) (a : Nat), l.Pairwise (· < ·) → a ∈ l →
+    l.countP (fun x => x == a) = 1 := by
+  intro l
+  induction l with
+  | nil => intro a _ h; simp at h
+  | cons x xs ih =>
+    intro a hp hm
+    rw [List.pairwise_cons] at hp
+    by_cases e : x = a
+    · subst e
+      have : xs.countP (fun y => y == x) = 0 := by
+        rw [List.countP_eq_zero]
+        intro y hy
+        have := hp.1 y hy
+        simp; omega
+      simp [this]
+    · have hm' : a ∈ xs := by
+        rcases List.mem_cons.mp hm with h | h
+        · exact absurd h.symm e
+        · exact h
+      simp [e, ih a hp.2 hm']
+
+/-- reaction_enqueued_iff_settled_exactly_once (one trace statement, every reachable state).
+For every promise `p`, the reaction jobs EVER enqueued on its behalf are, in enqueue order, exactly:
+nothing while `p` is pending; once `p` is settled, one job per attachment (`then`/await/…), in attachment order, of the
+kind matching the settlement (fulfil-type iff fulfilled) and carrying `p`'s result.  Attachment ids are pairwise
+distinct, so each attachment has exactly one job iff `p` is settled and none otherwise — never both members of a pair,
+never twice.  (That each enqueued job then runs at most once, in order, and has run when the queue is found empty is
+`ran_is_prefix_of_enqueued` / `job_runs_at_most_once` / `queue_empty_on_normal_return`.) -/
+theorem reaction_enqueued_iff_settled_exactly_once {k : K} (h : Reach k) (p : Nat) :
+    rlog p k.enqEver = expectedLog (k.getP p) ∧
+    (k.getP p).attached.Pairwise (· < ·) ∧
+    (∀ rid ∈ (k.getP p).attached,
+        (rlog p k.enqEver).countP (fun e => e.1 == rid) = if (k.getP p).state = .pending then 0 else 1) := by
+  have he := einv_reach h p
+  have ha := (ainv_reach h p).1
+  refine ⟨he, ha, ?_⟩
+  intro rid hr
+  rw [he]
+  unfold expectedLog
+  cases hs : (k.getP p).state with
+  | pending => simp
+  | fulfilled =>
+    simp only [List.countP_map]
+    have := countP_eq_one_of_sorted _ rid ha hr
+    simpa [Function.comp_def] using this
+  | rejected =>
+    simp only [List.countP_map]
+    have := countP_eq_one_of_sorted _ rid ha hr
+    simpa [Function.comp_def] using this
+
+/-- An await (or any other attachment) is resumed through at most one of its two handlers, at most once: the log never
+contains two jobs for one attachment. -/
+theorem attachment_fires_at_most_one_job {k : K} (h : Reach k) (p rid : Nat) (hr : rid ∈ (k.getP p).attached) :
+    (rlog p k.enqEver).countP (fun e => e.1 == rid) ≤ 1 := by
+  rw [(reaction_enqueued_iff_settled_exactly_once h p).2.2 rid hr]
+  split <;> omega
 
 /-- While a promise is pending its fulfil list and its reject list hold exactly the attached pairs — once each, in
-attachment order, in lock-step, with the right types; once it is settled nothing is stored any more.
-`_partial`: the single trace statement "for every attachment exactly one job in the enqueue log iff the promise is
-settled" is not stated; it is the conjunction of this invariant with the two theorems below. -/
-theorem stored_reactions_partial {k : K} (h : Reach k) (p : Nat) : RecOk (k.getP p) := rinv_reach h p
+attachment order, in lock-step, with the right types; once it is settled nothing is stored any more. -/
+theorem stored_reactions_while_pending {k : K} (h : Reach k) (p : Nat) : RecOk (k.getP p) := rinv_reach h p
 
 /-- Settlement hands exactly the stored reactions of the matching kind to the job queue: one job per stored
 reaction, in order, each carrying that reaction and the settlement value. -/
@@ -254,38 +340,73 @@ theorem late_attach_enqueues_one_job (k : K) (p : Nat) (cap : Option Cap) (f g :
         k.enqEver ++ [Job.reaction k.nextSid p { cap := cap, isFul := true, handler := f, rid := k.nextRid } (k.getP p).result]) ∧
     ((k.getP p).state = .rejected → (addReactions k p cap f g).enqEver =
         k.enqEver ++ [Job.reaction k.nextSid p { cap := cap, isFul := false, handler := g, rid := k.nextRid } (k.getP p).result]) ∧
-    ((k.getP p).state = .pending → (addReactions k p cap f g).enqEver = k.enqEver) := by
-  have e1 : (({ k with nextRid := k.nextRid + 1 } : K).getP p) = k.getP p := rfl
-  have me : ∀ (kk : K) (rid : Nat), (markHandled kk p rid).enqEver = kk.enqEver := fun _ _ => rfl
-  refine ⟨fun hs => ?_, fun hs => ?_, fun hs => ?_⟩
-  · have hlt : p < k.proms.length := lt_of_not_pending (by rw [hs]; simp)
-    unfold addReactions
-    simp only [hlt, if_true]
-    rw [me]
-    unfold addReactionsCore
-    simp only [e1, hs]
-    rfl
-  · have hlt : p < k.proms.length := lt_of_not_pending (by rw [hs]; simp)
-    unfold addReactions
-    simp only [hlt, if_true]
-    rw [me]
-    unfold addReactionsCore
-    simp only [e1, hs]
-    split <;> rfl
-  · unfold addReactions
+    ((k.getP p).state = .pending → (addReactions k p cap f g).enqEver = k.enqEver) :=
+  addReactions_enqEver k p cap f g
+
+/-! ## Combinators: Promise.all / allSettled / any (remainingElementsCount protocol) -/
+
+/-- In every reachable bookkeeping record: remainingElementsCount = (1 while iterating) + number of elements whose
+function has not fired; `values` has one slot per element. -/
+theorem comb_remaining_protocol {c : CombRec} (h : CReach c) :
+    c.remaining = (if c.iterating then 1 else 0) + (openCells c : Int) ∧ c.values.length = c.cells.length :=
+  ⟨(cinv_reach h).count, (cinv_reach h).len⟩
+
+/-- The aggregate capability is resolved/rejected by the counter at most once, and exactly when the iteration is
+over and every element function has fired. -/
+theorem comb_fires_once_iff_complete {c : CombRec} (h : CReach c) :
+    c.fires ≤ 1 ∧ (c.fires = 1 ↔ (c.iterating = false ∧ openCells c = 0)) := by
+  have := (cinv_reach h).fires
+  constructor
+  · rw [this]; split <;> omega
+  · rw [this]; split <;> simp_all
+
+/-- Each element's function takes effect at most once: a second call changes nothing and fires nothing. -/
+theorem comb_elem_at_most_once (c : CombRec) (idx : Nat) (v : Val) (h : c.cells[idx]? = some true) :
+    c.elemCall idx v = (c, false) := by
+  unfold CombRec.elemCall; rw [h]
+
+/-- …and the first call marks the element. -/
+theorem comb_elem_first_call_marks (c : CombRec) (idx : Nat) (v : Val) (h : c.cells[idx]? = some false) :
+    (c.elemCall idx v).1.cells[idx]? = some true ∧ (c.elemCall idx v).1.values = c.values.set idx v := by
+  have hlt : idx < c.cells.length := (List.getElem?_eq_some_iff.mp h).1
+  unfold CombRec.elemCall CombRec.dec
+  rw [h]
+  simp only []
+  split <;> simp [hlt]
+
+/-- Once an element has fired, no operation changes its slot of `values` or un-marks it. -/
+theorem comb_value_written_once {c : CombRec} (hc : CReach c) (idx : Nat) (h : c.cells[idx]? = some true) (op : COp) :
+    (applyC op c).cells[idx]? = some true ∧ (applyC op c).values[idx]? = c.values[idx]? := by
+  have hlt : idx < c.cells.length := (List.getElem?_eq_some_iff.mp h).1
+  have hlv : idx < c.values.length := by rw [(cinv_reach hc).len]; exact hlt
+  cases op with
+  | addElem =>
+    simp only [applyC, CombRec.addElem]
     split
-    · rw [me]
-      unfold addReactionsCore
-      simp only [e1, hs]
-      rfl
-    · rfl
+    · simp [List.getElem?_append_left hlt, List.getElem?_append_left hlv, h]
+    · exact ⟨h, rfl⟩
+  | finish =>
+    simp only [applyC, CombRec.finish, CombRec.dec]
+    split
+    · split <;> exact ⟨h, rfl⟩
+    · exact ⟨h, rfl⟩
+  | elemCall j v =>
+    simp only [applyC, CombRec.elemCall, CombRec.dec]
+    split
+    · exact ⟨h, rfl⟩
+    · exact ⟨h, rfl⟩
+    · rename_i hj
+      have hne : j ≠ idx := by intro e; subst e; rw [h] at hj; simp at hj
+      split <;> simp [hne, h]
 
 /-! ## The executable model never leaves the invariants -/
 
 /-- Every state of the interpreter satisfies all kernel invariants (by typing: `St.rk : {k // Reach k}`). -/
 theorem interpreter_state_invariants (st : St) :
-    QInv st.rk.val ∧ TInv st.rk.val ∧ TrInv st.rk.val ∧ RInv st.rk.val :=
-  ⟨qinv_reach st.rk.property, tinv_reach st.rk.property, trinv_reach st.rk.property, rinv_reach st.rk.property⟩
+    QInv st.rk.val ∧ TInv st.rk.val ∧ TrInv st.rk.val ∧ RInv st.rk.val ∧ EInv st.rk.val ∧ AInv st.rk.val ∧
+    (∀ cb ∈ st.combs, CInv cb.crec.val) :=
+  ⟨qinv_reach st.rk.property, tinv_reach st.rk.property, trinv_reach st.rk.property, rinv_reach st.rk.property,
+   einv_reach st.rk.property, ainv_reach st.rk.property, fun cb _ => cinv_reach cb.crec.property⟩
 
 /-! ## Non-vacuity (tests on literals, not proofs of the property) -/
 
